@@ -5,6 +5,26 @@
 import StorageModel.C17.Snapshot
 namespace StorageModel.C17
 
+theorem decodeBody_encodeDb (d : Db) : decodeBody (encodeDb d) = some d := by
+  obtain ⟨c, m⟩ := d
+  induction c with
+  | nil => simp [encodeDb, decodeBody]
+  | cons kv r ih =>
+    simp only [encodeDb, List.map_cons, List.cons_append] at ih ⊢
+    simp only [decodeBody, ih]
+    simp
+
+theorem decodeDb_encodeDb (d : Db) : decodeDb (encodeDb d) = some d := by
+  have h : encodeDb d ≠ [] := by simp [encodeDb]
+  cases he : encodeDb d with
+  | nil => exact absurd he h
+  | cons a r => rw [← he]; simp only [decodeDb]; rw [he] ; rw [← he]; exact decodeBody_encodeDb d
+
+/-- **the restored file is the snapshot file, for every reader behaviour** (short reads, one byte
+    at a time, empty reads, last bytes delivered together with io.EOF, any chunk size) -/
+@[simp] theorem restoreVia_eq (f : Db) (rd : Reader) : restoreVia f rd = some f := by
+  simp [restoreVia, copyAll_script, decodeDb_encodeDb]
+
 /-- the operation does not write snapshot slot `k` -/
 def Op.keeps (k : Nat) : Op → Bool
   | .snap j _ => j != k
@@ -34,7 +54,7 @@ theorem step_keeps_file (s : Sys) (o : Op) (k : Nat) (h : o.keeps k = true) :
   | stream j =>
     have : k ≠ j := by simp only [Op.keeps, bne_iff_ne, ne_eq] at h; exact fun e => h e.symm
     simp [step, lookup_store_other _ _ _ _ this]
-  | restore j b => simp only [step]; split <;> rfl
+  | restore j b => simp only [step]; split <;> simp
   | gsid => rfl
   | gtl m ok => simp [step, (getTimeline_files m ok s).1]
   | listen => rfl
@@ -258,7 +278,7 @@ theorem rel_step (st : SpecSt) (s : Sys) (o : Op) (hr : Rel st s) :
     | some sv =>
       rw [hsv] at hk
       simp only [Option.map_some] at hk
-      simp only [step, hk]
+      simp only [step, hk, restoreVia_eq]
       obtain ⟨i, d⟩ := sv
       cases i with
       | none =>
